@@ -1325,10 +1325,15 @@ class Compiler:
 
     def visit_Domain(self, node):
         backup = "__previous_i18n_domain_%s" % mangle(id(node))
+        # (restored also when the element fails under a tal:on-error)
         return template("BACKUP = __i18n_domain", BACKUP=backup) + \
             template("__i18n_domain = NAME", NAME=ast.Constant(node.name)) + \
-            self.visit(node.node) + \
-            template("__i18n_domain = BACKUP", BACKUP=backup)
+            [ast.Try(
+                body=self.visit(node.node) or [ast.Pass()],
+                handlers=[],
+                orelse=[],
+                finalbody=template("__i18n_domain = BACKUP", BACKUP=backup),
+            )]
 
     def visit_Target(self, node):
         backup = "__previous_i18n_target_%s" % mangle(id(node))
@@ -1345,16 +1350,25 @@ class Compiler:
             [ast.Assign([store("target_language")], load(tmp))] + \
             list(self._enter_assignment(names)) + \
             template(publish) + \
-            self.visit(node.node) + \
-            template("target_language = BACKUP", BACKUP=backup) + \
-            list(self._leave_assignment(names))
+            [ast.Try(
+                body=self.visit(node.node) or [ast.Pass()],
+                handlers=[],
+                orelse=[],
+                finalbody=template(
+                    "target_language = BACKUP", BACKUP=backup
+                ) + list(self._leave_assignment(names)),
+            )]
 
     def visit_TxContext(self, node):
         backup = "__previous_i18n_context_%s" % mangle(id(node))
         return template("BACKUP = __i18n_context", BACKUP=backup) + \
             template("__i18n_context = NAME", NAME=ast.Constant(node.name)) + \
-            self.visit(node.node) + \
-            template("__i18n_context = BACKUP", BACKUP=backup)
+            [ast.Try(
+                body=self.visit(node.node) or [ast.Pass()],
+                handlers=[],
+                orelse=[],
+                finalbody=template("__i18n_context = BACKUP", BACKUP=backup),
+            )]
 
     def visit_OnError(self, node):
         body = []
